@@ -160,6 +160,39 @@ def _firewall() -> Tuple[list, list, list, bool]:
     return entry_acl, entry_calls, dispatch, verdict_first
 
 
+def _entry_shapes() -> List[Tuple[str, str]]:
+    """Branch structure of each firewall entry point after `if not permitted: return` (the call LIST of `entryCalls` does not
+    say which calls exclude each other).  First-stage entry points must be `learn; if check_send(frame): session(frame, nic)
+    else: <second stage only>`; second-stage entry points must be the single statement `self.process_frame(frame=…, …)`.
+    Anything else is reported under its own name, so that the Lean obligation fails."""
+    fw = class_def(parse(FW), "Firewall")
+    out = []
+    for fn in fw.body:
+        if not (isinstance(fn, ast.FunctionDef) and fn.name.startswith("_process_") and fn.name.endswith("_frame")):
+            continue
+        name = _entry_name(fn.name)
+        rest = [s for s in _body(fn)[2:] if not (isinstance(s, ast.Return) and s.value is None) and not _is_log(s)]
+        shape = "other"
+        if len(rest) == 1 and isinstance(rest[0], ast.Expr) and _u(rest[0]).startswith("self.process_frame(frame=frame, "
+                                                                                         "from_network_interface=from_network_interface)"):
+            shape = "process"
+        elif (len(rest) == 2 and isinstance(rest[0], ast.Expr) and _u(rest[0].value.func) == "self.software_manager.arp.add_arp_cache_entry"
+              and isinstance(rest[1], ast.If) and _u(rest[1].test) == "self.check_send_frame_to_session_manager(frame)"):
+            body = [s for s in rest[1].body if not _is_log(s)]
+            sess_ok = (len(body) == 1 and _u(body[0]) == "self.session_manager.receive_frame(frame, from_network_interface)")
+            else_calls = _calls_in_order(rest[1].orelse)
+            else_ok = bool(else_calls) and all(c == "lookup" or c.startswith("entry:") for c in else_calls)
+            # the frame object handed on is the one that was judged: every entry/session/process call passes `frame`
+            passes = all(_u(c.args[0]) == "frame" if c.args else _u({k.arg: k.value for k in c.keywords}["frame"]) == "frame"
+                         for c in ast.walk(rest[1]) if isinstance(c, ast.Call) and _u(c.func).startswith("self._process_"))
+            if sess_ok and else_ok and passes:
+                shape = "learn;if-toSession-then-session-else-second"
+        out.append((name, shape))
+    order = ["extIn", "extOut", "intIn", "intOut", "dmzIn", "dmzOut"]
+    out.sort(key=lambda x: order.index(x[0]))
+    return out
+
+
 def _power_guard(st: ast.stmt) -> bool:
     return (isinstance(st, ast.If) and _u(st.test) == "self.operating_state != NodeOperatingState.ON"
             and len(st.body) == 1 and isinstance(st.body[0], ast.Return) and st.body[0].value is None and not st.orelse)
@@ -347,6 +380,91 @@ def _software_scan() -> Tuple[List[str], List[str]]:
     return sites, reaches
 
 
+TO_SESSION_ATOMS = {
+    "self.ip_is_router_interface(dst_ip_address)": "own",
+    "self.ip_is_router_interface(frame.ip.dst_ip_address)": "own",
+    "frame.icmp": "icmp",
+    "dst_port in self.software_manager.get_open_ports()": "open",
+}
+
+
+def _bexpr(e: ast.expr) -> str:
+    """A Python boolean expression over the three facts `check_send_frame_to_session_manager` reads, as a Lean `BExpr`
+    term.  The tree is Python's own parse, so operator precedence is whatever Python's is."""
+    if isinstance(e, ast.BoolOp):
+        ctor = ".and" if isinstance(e.op, ast.And) else ".or"
+        parts = [_bexpr(v) for v in e.values]
+        out = parts[-1]
+        for p in reversed(parts[:-1]):
+            out = f"({ctor} {p} {out})"
+        return out
+    if isinstance(e, ast.UnaryOp) and isinstance(e.op, ast.Not):
+        return f"(.not {_bexpr(e.operand)})"
+    if isinstance(e, ast.Call) and _u(e.func) == "bool" and len(e.args) == 1 and not e.keywords:
+        return _bexpr(e.args[0])
+    if isinstance(e, ast.Constant) and isinstance(e.value, bool):
+        return "(.const true)" if e.value else "(.const false)"
+    src = _u(e)
+    if src in TO_SESSION_ATOMS:
+        return f'(.atom "{TO_SESSION_ATOMS[src]}")'
+    raise ValueError(f"check_send_frame_to_session_manager: unrecognised condition `{src}`")
+
+
+def _to_session_expr() -> str:
+    """`Router.check_send_frame_to_session_manager` (inherited unchanged by Firewall): the decision as a boolean expression
+    over own = "destination address is one of my interfaces' (enabled or not)", icmp = "the frame carries an ICMP packet",
+    open = "its TCP/UDP destination port is in get_open_ports()".  Accepted statement shapes: the local bindings of
+    dst_ip_address / dst_port, then `if E: return True` … `return False`, or `return E`, or `return bool(E)`."""
+    tree = parse(RT)
+    r = class_def(tree, "Router")
+    fw = class_def(parse(FW), "Firewall")
+    if any(isinstance(n, ast.FunctionDef) and n.name == "check_send_frame_to_session_manager" for n in fw.body):
+        raise ValueError("Firewall overrides check_send_frame_to_session_manager")
+    b = _body(find_method(r, "check_send_frame_to_session_manager"))
+    want_head = ["dst_ip_address = frame.ip.dst_ip_address", "dst_port = None"]
+    if [_u(x) for x in b[:2]] != want_head:
+        raise ValueError("check_send_frame_to_session_manager: unrecognised local bindings")
+    sel = b[2]
+    ok = (isinstance(sel, ast.If) and _u(sel.test) == "frame.ip.protocol == PROTOCOL_LOOKUP['TCP']"
+          and [_u(x) for x in sel.body] == ["dst_port = frame.tcp.dst_port"] and len(sel.orelse) == 1
+          and isinstance(sel.orelse[0], ast.If) and _u(sel.orelse[0].test) == "frame.ip.protocol == PROTOCOL_LOOKUP['UDP']"
+          and [_u(x) for x in sel.orelse[0].body] == ["dst_port = frame.udp.dst_port"] and not sel.orelse[0].orelse)
+    if not ok:
+        raise ValueError("check_send_frame_to_session_manager: unrecognised dst_port selection")
+    rest = b[3:]
+    # `ip_is_router_interface(ip)` must compare with every interface's address, enabled or not, by default
+    nf = find_method(r, "ip_is_router_interface")
+    if [a.arg for a in nf.args.args] != ["self", "ip_address", "enabled_only"] or _u(nf.args.defaults[0]) != "False":
+        raise ValueError("Router.ip_is_router_interface: unexpected signature")
+    if len(rest) == 2 and isinstance(rest[0], ast.If) and not rest[0].orelse and [_u(x) for x in rest[0].body] == ["return True"] \
+            and _u(rest[1]) == "return False":
+        return _bexpr(rest[0].test)
+    if len(rest) == 1 and isinstance(rest[0], ast.Return) and rest[0].value is not None:
+        return _bexpr(rest[0].value)
+    raise ValueError("check_send_frame_to_session_manager: unrecognised return shape")
+
+
+def _dmz_broadcast_drop() -> bool:
+    """Does the else-branch of `_process_dmz_outbound_frame` (frame not for the firewall's own software) start with
+    `if frame.is_broadcast: return`, i.e. before any look-up?"""
+    fw = class_def(parse(FW), "Firewall")
+    fn = find_method(fw, "_process_dmz_outbound_frame")
+    branch = [s for s in _body(fn) if isinstance(s, ast.If) and _u(s.test) == "self.check_send_frame_to_session_manager(frame)"]
+    if len(branch) != 1:
+        raise ValueError("_process_dmz_outbound_frame: session branch not found")
+    els = [s for s in branch[0].orelse if not _is_log(s)]
+    if not els:
+        raise ValueError("_process_dmz_outbound_frame: empty else branch")
+    first = els[0]
+    drop = (isinstance(first, ast.If) and _u(first.test) == "frame.is_broadcast" and not first.orelse
+            and [_u(x) for x in first.body if not _is_log(x)] == ["return"])
+    if not drop:
+        # no drop: then the first statement must be the look-up (the shape before the repair)
+        if not _u(first).startswith("outbound_nic = self.software_manager.arp.get_arp_cache_network_interface("):
+            raise ValueError("_process_dmz_outbound_frame: unrecognised first statement of the else branch")
+    return drop
+
+
 def _lean_str_list(xs: List[str]) -> str:
     return "[" + ", ".join('"' + x + '"' for x in xs) + "]"
 
@@ -366,6 +484,17 @@ def entryCalls : List (String × List String) := [{", ".join(f'("{a}", {_lean_st
 def portDispatch : List (Nat × String) := [{", ".join(f'({p}, "{e}")' for p, e in dispatch)}]
 /-- every entry point starts with the verdict and returns on DENY before anything else -/
 def verdictFirst : Bool := {lb(verdict_first)}
+/-- branch structure of each entry point after the DENY return -/
+def entryShape : List (String × String) := [{", ".join(f'("{a}", "{b}")' for a, b in _entry_shapes())}]
+/-- `_process_dmz_outbound_frame` drops a layer-2 broadcast before the look-ups -/
+def dmzOutDropsBroadcast : Bool := {lb(_dmz_broadcast_drop())}
+/-- boolean expressions over named facts (Python's own parse of the source expression) -/
+inductive BExpr where
+  | atom (name : String) | const (b : Bool) | and (a b : BExpr) | or (a b : BExpr) | not (a : BExpr)
+deriving Repr
+/-- `Router.check_send_frame_to_session_manager` (inherited by `Firewall`): own = destination address is one of the device's
+interface addresses, icmp = the frame carries an ICMP packet, open = TCP/UDP destination port in `get_open_ports()` -/
+def toSessionExpr : BExpr := {_to_session_expr()}
 /-- `Router.receive_frame`, statement by statement -/
 def routerOrder : List String := {_lean_str_list(order)}
 /-- `Router.subject_to_acl` exempts only frames whose payload is an `ARPPacket` -/
